@@ -98,8 +98,8 @@ EXPORT int vscanf_s(const char *restrict fmt, va_list ap) {
     }
 
 #if defined(HAVE_STRSTR)
-    if (unlikely((p = strstr((char *)fmt, "%n")))) {
-        if ((p - fmt == 0) || *(p - 1) != '%') {
+    if (unlikely((p = safec_find_percent_n(fmt)))) {
+        { /* any n conversion, whatever flags, width or length modifier */
             invoke_safe_str_constraint_handler("vscanf_s: illegal %n", NULL,
                                                EINVAL);
             errno = EINVAL;
